@@ -15,6 +15,15 @@ use crate::common::{guarded, ValSpec, Violation};
 thread_local! {
     /// set while the harness performs a local write (panicky listeners only panic then)
     static LOCAL_WRITE: std::cell::Cell<bool> = const { std::cell::Cell::new(false) };
+    /// run once by the first callback that is invoked (WriteDropping)
+    static CALLBACK_HOOK: std::cell::RefCell<Option<Box<dyn FnOnce()>>> = const { std::cell::RefCell::new(None) };
+}
+
+fn run_callback_hook() {
+    let hook = CALLBACK_HOOK.with(|h| h.borrow_mut().take());
+    if let Some(f) = hook {
+        f();
+    }
 }
 
 impl World {
@@ -95,6 +104,7 @@ impl World {
                     let calls = node.calls.clone();
                     let panicky = *panicky;
                     let handle = node.chit.subscribe_event(prefix.clone(), move |ev| {
+                        run_callback_hook();
                         calls.lock().unwrap().push((si, ev.key.to_string(), ev.value.to_string(), Id::from_real(ev.node)));
                         if panicky && LOCAL_WRITE.with(|c| c.get()) {
                             panic!("injected listener panic");
@@ -124,6 +134,42 @@ impl World {
                     }
                 }
                 Ok(())
+            }
+            Cmd::WriteDropping { p, key, val, sub } => {
+                let handle = self.nodes.get_mut(*p).and_then(|n| n.as_mut()).and_then(|n| n.subs.get_mut(*sub)).and_then(|s| s.handle.take());
+                let Some(handle) = handle else {
+                    return self.write(*p, WriteOp::Set, key, val);
+                };
+                // application thread B: waits until a callback is running in this thread (the
+                // registry is then locked for reading), announces itself and drops the handle
+                let (go_tx, go_rx) = std::sync::mpsc::channel::<()>();
+                let (att_tx, att_rx) = std::sync::mpsc::channel::<()>();
+                let dropper = std::thread::spawn(move || {
+                    if go_rx.recv_timeout(std::time::Duration::from_secs(5)).is_ok() {
+                        let _ = att_tx.send(());
+                    }
+                    drop(handle);
+                });
+                let go2 = go_tx.clone();
+                CALLBACK_HOOK.with(|h| {
+                    *h.borrow_mut() = Some(Box::new(move || {
+                        let _ = go2.send(());
+                        // give B the time to reach the registry lock while this callback still runs
+                        if att_rx.recv_timeout(std::time::Duration::from_millis(500)).is_ok() {
+                            std::thread::sleep(std::time::Duration::from_millis(2));
+                        }
+                    }));
+                });
+                let res = self.write(*p, WriteOp::Set, key, val);
+                // no callback ran: release B anyway
+                CALLBACK_HOOK.with(|h| h.borrow_mut().take());
+                let _ = go_tx.send(());
+                let _ = dropper.join();
+                if let Some(s) = self.nodes.get_mut(*p).and_then(|n| n.as_mut()).and_then(|n| n.subs.get_mut(*sub)) {
+                    s.active = false;
+                }
+                self.stats.inc("fault_handle_dropped_by_another_thread_during_a_callback");
+                res
             }
             Cmd::Watch { p, attach } => {
                 if let Some(node) = self.nodes.get_mut(*p).and_then(|n| n.as_mut()) {
